@@ -160,13 +160,13 @@ Section Pif.
         + inversion Hc; subst. apply tt_log; [exact H|exact I].
         + match type of Hc with (match ?X with _ => _ end = _) => destruct X as [st2|] eqn:Ep; [|discriminate] end.
           inversion Hc; subst. apply tt_log; [|exact I].
-          assert (H2 : TT st2) by (apply (process_loop_tt _ _ _ H Ep)).
+          assert (H2 : TT st2) by (apply (process_loop_tt (x :: t) (hupd_q (hupd_ecount st (S (hecount st))) [] (hf st)) st2 H Ep)).
           unfold hrecycle. destruct mech; exact H2.
       - destruct (hq st) as [|x t] eqn:E.
         + inversion Hc; subst. apply tt_log; [exact H|exact I].
         + match type of Hc with (match ?X with _ => _ end = _) => destruct X as [st2|] eqn:Ep; [|discriminate] end.
           inversion Hc; subst. apply tt_log; [|exact I].
-          assert (H2 : TT st2) by (apply (process_loop_tt _ _ _ H Ep)).
+          assert (H2 : TT st2) by (apply (process_loop_tt [x] (hupd_q (hupd_ecount st (S (hecount st))) t (hf st)) st2 H Ep)).
           unfold hrecycle. destruct mech; exact H2.
       - destruct (hq st) as [|x t] eqn:E.
         + inversion Hc; subst. apply tt_log; [exact H|exact I].
@@ -211,7 +211,7 @@ Section Pif.
 
   Lemma pif_loop_kept rec pk p lab ty : forall temp st kept idle st' kept' idle',
     hpif_loop np callable own arity mech chk behav pbehav rec st pk p lab ty temp kept idle = Some (st', kept', idle') ->
-    exists K, kept' = rev kept ++ K /\ removed_only (tagged lab) temp K /\ idle' + length K = idle + length temp.
+    exists K, kept' = rev kept ++ K /\ removed_only (tagged lab) temp K /\ idle' + length K <= idle + length temp.
   Proof.
     induction temp as [|x rest IH]; intros st kept idle st' kept' idle' Hp; simpl in Hp.
     - inversion Hp; subst. exists []. rewrite app_nil_r. split; [reflexivity|]. split; [constructor|simpl; lia].
@@ -238,7 +238,7 @@ Section Pif.
   Theorem round_leaves_others_in_place rec st pk p lab ty st2 kept idle :
     hpif_loop np callable own arity mech chk behav pbehav rec
               (hupd_q (hupd_ecount st (S (hecount st))) [] (hf st)) pk p lab ty (hq st) [] 0 = Some (st2, kept, idle) ->
-    removed_only (tagged lab) (hq st) kept /\ idle + length kept = length (hq st) /\
+    removed_only (tagged lab) (hq st) kept /\ idle + length kept <= length (hq st) /\
     forall f : hslot -> bool, (forall x, tagged lab x -> f x = false) -> filter f kept = filter f (hq st).
   Proof.
     intros H. destruct (pif_loop_kept _ _ _ _ _ _ _ _ _ _ _ _ H) as [K [A [B C]]]. simpl in A. subst kept.
